@@ -100,7 +100,9 @@ def make_case(ctx: Ctx, backend: str, i: int, opts) -> Optional[Dict[str, Any]]:
             # integer operands whose result is not an integer (a power with an exponent negative at run time, a real division):
             # the column has to hold the value the expression has
             if rows == "object":
-                cols.append((R.choice(["((j.nTrk() + 2) ** -1)", "(2 ** (0 - j.nTrk() - 1))", "(j.nTrk() / 4)", "((j.nTrk() + 1) ** (j.nTrk() - 3))", "(True / 4)"]), "scalar", None))
+                cols.append((R.choice(["((j.nTrk() + 2) ** -1)", "(2 ** (0 - j.nTrk() - 1))", "(j.nTrk() / 4)", "((j.nTrk() + 1) ** (j.nTrk() - 3))", "(True / 4)",
+                                       # an integer seed that is not a literal node, floating values folded in: the column holds the floating result
+                                       "j.trkPts().Aggregate(-1, lambda a, x: a + x)", "j.weights().Aggregate((0 - 2), lambda a, x: a + x / 2)", "j.hits().Aggregate(-1, lambda a, x: a + x / 4)"]), "scalar", None))
             else:
                 cols.append(R.choice([(f"((e.{C}('A').Count() + 1) ** -1)", "scalar"), (f"e.{C}('A').Select(lambda q: (q.nTrk() + 2) ** -2)", "list"), (f"(e.{C}('A').Count() / 8)", "scalar"),
                                       (f"e.{C}('A').Select(lambda q: q.hits().Select(lambda h: (h + 1) ** -1))", "list2")]) + (None,))
